@@ -3,7 +3,7 @@ EXTENDS Ops
 InstsV == { <<1,1>>, <<1,2>>, <<2,1>> }
 ReqV   == { <<1>>, <<1,1>>, <<1,2>>, <<2,1>>, <<9>> }
 AllOps == {"get", "multiget", "getnext", "multigetnext", "set", "multiset", "bulkget"}
-PertData == {"none", "extra", "dropped", "oversize"}
+PertData == {"none", "extra", "dropped", "oversize", "set_other"}
 PertId   == {"none", "id_plus", "id_minus", "id_arb", "wrong_comm", "wrong_ver"}
 PertErr  == {"err"}
 StatQ == {1, 2, 5, 18, 19, 255, -1}
